@@ -194,7 +194,8 @@ pub fn shim_btreemap_entry_or_insert<K: Ord, V>(m: &mut BTreeMap<K, V>, k: K, v:
 pub fn shim_iter_nth<I: Iterator>(it: I, n: usize) -> (r: Option<I::Item>)
     requires vstd::std_specs::iter::IteratorSpec::obeys_prophetic_iter_laws(&it),
     ensures
-        vstd::std_specs::iter::IteratorSpec::will_return_none(&it) ==> r == (if n < vstd::std_specs::iter::IteratorSpec::remaining(&it).len() { Some(vstd::std_specs::iter::IteratorSpec::remaining(&it)[n as int]) } else { None }),
+        // n+1 calls of `next` under vstd's prophetic law for next (front of `remaining`, None once it is empty)
+        r == (if n < vstd::std_specs::iter::IteratorSpec::remaining(&it).len() { Some(vstd::std_specs::iter::IteratorSpec::remaining(&it)[n as int]) } else { None }),
 {
     let mut it = it;
     it.nth(n)
